@@ -317,7 +317,10 @@ class FunctionParser(BaseParser):
         self.return_type = self.parse_annotation(
             annotation=self.return_annotation
         )
+        self.generate_generator_types()
 
+    def generate_generator_types(self):
+        # also called when a forward reference in the return type gets resolved
         # https://docs.python.org/3/library/typing.html#typing.Generator
         if self.return_type and isinstance(self.return_type, type) and issubclass(self.return_type, Rule):
             if self.is_generator:
@@ -510,6 +513,7 @@ class FunctionParser(BaseParser):
             self.position_type, r = resolve_forward_type(self.position_type)
         if self.return_type:
             self.return_type, r = resolve_forward_type(self.return_type)
+            self.generate_generator_types()
 
     def wrap(
         self,
